@@ -36,6 +36,7 @@ mod cmd_segment;
 mod cmd_macro;
 mod cmd_tree;
 mod cmd_prover;
+mod cmd_oracle;
 
 use std::io::{self, BufRead, Write};
 use std::panic::{catch_unwind, AssertUnwindSafe};
